@@ -30,6 +30,7 @@ def main():
     a = ap.parse_args()
     prop = a.prop.upper()
     tier = a.tier if a.tier in ('quick', 'thorough') else 'quick'
+    os.environ['VERIF_TIER_RUNNING'] = tier          # per-scenario wall-clock budgets scale with the tier
     try:
         mod = importlib.import_module('fv.props.' + prop.lower())
     except ModuleNotFoundError:
